@@ -455,7 +455,7 @@ def vm_sample(meta, outdir, trace, k, seed):
         f.write("Definition n_false := length (filter negb cases).\n")
         f.write("Eval vm_compute in (length cases, n_false).\n")
     rc, out = run(["coqc"] + qflags(lib) + ["-o", os.path.join(d, "cases.vo"), src], cwd=d, timeout=1800)
-    m = re.search(r"=\s*\((\d+),\s*(\d+)\)", out)
+    m = re.search(r"=\s*\((\d+)(?:%\w+)?,\s*(\d+)(?:%\w+)?\)", out)
     if rc != 0 or not m:
         return 0, -1, out[-3000:]
     return int(m.group(1)), int(m.group(2)), out[-500:]
